@@ -945,7 +945,18 @@ impl Sim {
             let this = &mut *self;
             catch_unwind(AssertUnwindSafe(|| -> Result<Option<Cell>, Error> {
                 let (cell, _rest) = marwood::parse::parse_text(text)?;
-                this.vm.prepare_eval(&cell)?;
+                let prepared = this.vm.prepare_eval(&cell);
+                {
+                    // a form that the compiler rejects makes the VM collect inside prepare_eval:
+                    // audit that collection now, while the roots are still those it ran with
+                    let mut c = this.ctl.borrow_mut();
+                    c.note_production_gc(&this.vm);
+                    if c.poisoned {
+                        drop(c);
+                        panic!("verif: heap audit found a corrupted heap; run stopped");
+                    }
+                }
+                prepared?;
                 loop {
                     let done = this.vm.verif_state().instructions - start_instr;
                     if done >= cap {
